@@ -19,6 +19,8 @@ type Env struct {
 	fn    *ssa.Function // the function whose names are in scope
 	inOld bool
 	depth int
+	unfold int  // recursive-function unfoldings on this path
+	noUnfold bool
 }
 
 func (e *Env) with(vars map[string]Val) *Env {
@@ -170,6 +172,20 @@ func (e *Env) eval(x Expr) Val {
 			return VBool{not(e.evalBool(x.X))}
 		case "-":
 			return VInt{app("-", e.evalInt(x.X))}
+		case "&":
+			id, ok := x.X.(EIdent)
+			if !ok || e.fn != c.fn {
+				sfail("& needs a local variable name")
+			}
+			a := c.findCell(c.fn, id.Name)
+			if a == nil {
+				sfail("no local variable %s", id.Name)
+			}
+			p, ok := c.vals[a].(VPtr)
+			if !ok {
+				sfail("variable %s is not allocated here", id.Name)
+			}
+			return p
 		}
 	case ECond:
 		cnd := e.evalBool(x.C)
@@ -540,7 +556,7 @@ func (e *Env) call(x ECall) Val {
 		for i, p := range sf.Params {
 			vars[p] = args[i]
 		}
-		n := &Env{c: e.c, st: e.st, old: e.old, vars: vars, cells: false, fn: nil, depth: e.depth + 1}
+		n := &Env{c: e.c, st: e.st, old: e.old, vars: vars, cells: false, fn: nil, depth: e.depth + 1, unfold: e.unfold, noUnfold: e.noUnfold}
 		return n.eval(sf.Body)
 	}
 	sfail("unknown spec function %s", x.Fn)
